@@ -552,22 +552,72 @@ func (e *Engine) feasibleM(s *State, c *Term) (Verdict, *CachedModel) {
 	}
 	// the path condition is satisfiable (invariant of exploration), so only the constraints that share
 	// symbols with c can make pc && c unsatisfiable (constraint independence)
-	asserts := append(Slice(s.pcTerms(), c), c)
+	pc := s.pcTerms()
+	// literally part of the path condition (or its negation is): no solver needed
+	nc := Not(c)
+	for _, t := range pc {
+		if t == c {
+			return Sat, s.model
+		}
+		if t == nc {
+			return Unsat, nil
+		}
+	}
 	ms := e.Cfg.FeasMs
 	if s.mergeDepth > 0 && ms > 400 {
 		ms = 400
 	}
 	want := s.model != nil && !NoModelReuse
-	v, m, syms, _ := s.pf.CheckSyms(asserts, ms, want)
+	coarse := append(Slice(pc, c), c)
+	// 1. the finer cut (connected through variables only): unsat is sound, sat needs validation
+	if fine := append(SliceVars(pc, c), c); len(fine) < len(coarse) {
+		v, m, syms, _ := s.pf.CheckSyms(fine, ms, want)
+		if v == Unsat {
+			return Unsat, nil
+		}
+		if v == Sat && want && m != nil {
+			cm := NewCachedModel(s.model, m, syms)
+			if modelSatisfies(cm, pc) && modelSatisfies(cm, []*Term{c}) {
+				return Sat, cm
+			}
+		}
+	}
+	v, m, syms, _ := s.pf.CheckSyms(coarse, ms, want)
 	if v == Unknown {
 		e.mu.Lock()
 		e.FeasUnknown++
+		if os.Getenv("GOSYM_FORKS") != "" {
+			e.ForkSites["FEAS-UNKNOWN "+e.where(s)+" :: "+clip(c.String(), 300)]++
+		}
 		e.mu.Unlock()
 	}
 	if v == Sat && want && m != nil {
-		return v, NewCachedModel(s.model, m, syms)
+		cm := NewCachedModel(s.model, m, syms)
+		if modelSatisfies(cm, pc) {
+			return v, cm
+		}
+		return v, nil
 	}
 	return v, nil
+}
+
+func clip(s string, n int) string {
+	if len(s) > n {
+		return s[:n] + "..."
+	}
+	return s
+}
+
+// modelSatisfies: every constraint evaluates to true under the model (missing values count as failure).
+func modelSatisfies(cm *CachedModel, ts []*Term) bool {
+	memo := map[int]MVal{}
+	for _, t := range ts {
+		v, ok := cm.eval(t, memo)
+		if !ok || v.B == nil || !*v.B {
+			return false
+		}
+	}
+	return true
 }
 
 // decide replaces a condition by true/false when the path condition determines it (two cheap queries).
@@ -1556,6 +1606,9 @@ func (e *Engine) lookup(s *State, fr *Frame, x *ssa.Lookup) []*State {
 		miss := TTrue
 		for _, en := range mo.E {
 			eq := e.valueEq(s, en.K, key)
+			if !eq.IsConst() {
+				eq = e.decide(s, eq) // settle key aliasing against the path condition (keeps values ite-free)
+			}
 			if eq == TFalse {
 				continue
 			}
@@ -1606,6 +1659,9 @@ func (e *Engine) mapUpdate(s *State, fr *Frame, x *ssa.MapUpdate) []*State {
 	miss := TTrue
 	for i, en := range mo.E {
 		eq := e.valueEq(s, en.K, key)
+		if !eq.IsConst() {
+			eq = e.decide(s, eq)
+		}
 		if eq == TFalse {
 			continue
 		}
